@@ -168,7 +168,8 @@ Proof.
       * apply N.eqb_eq in E.
         change ml_tail_arm_moves_base with true in H. change ml_search_arm_moves_base with true in H. cbv iota in H.
         destruct t as [|z t'].
-        -- destruct H as [H|[]]. destruct r; [|right; left; exact H].
+        -- destruct H as [H|[]].
+           destruct (r && (if ml_tail_arm_only_if_longer then b_end y <? b_end m else true)); [|right; left; exact H].
            left. rewrite <- H, <- E. apply bmatch_eta.
         -- destruct H as [H|H]; [|right; right; exact H].
            destruct (r && (b_end y <? b_end m)); [|right; left; exact H].
